@@ -13,11 +13,13 @@ C06Ok(e) ==
     ELSE /\ e.gjout = "ok"
          /\ LET r == ParseGeoJSON(e.gjtokens) IN r.ok /\ r.v = cs.g     \* an RFC 7946 geometry object that parses back to g
          /\ e.gjdec = cs.g                                      \* Decode(Encode(g)) = g, bit for bit
+         /\ e.gjkeep                                            \* the text returned for the previous geometry is still that text
 C17Ok(e) ==
     IF cs.kind = "nonfinite" THEN TRUE                          \* WKT of non-finite values is outside the property
     ELSE IF cs.g.t \notin WKTSupported THEN e.wktout = "err"    \* other types are rejected, not mis-encoded
     ELSE /\ e.wktout = "ok"
          /\ LET r == ParseWKT(e.wkttokens) IN r.ok /\ r.v = cs.g
+         /\ e.wktkeep
 Ok(e) == e.ev = "text" /\ (IF Focus = "C06" THEN C06Ok(e) ELSE C17Ok(e))
 Apply(e) == UNCHANGED cs
 Reset(e) == cs' = e
